@@ -22,7 +22,26 @@ from paramdev import World
 
 warnings.filterwarnings("ignore", category=RuntimeWarning)   # "coroutine ... was never awaited" of an aborted schedule response
 
-CAPTURE_ROUTES = ["data[]", "get_nowait", "getattr", "await get", "subscribe", "subscribe(on_change)"]
+# every public way a client comes to hold "the parameter obtained from a device by name"
+FILTER_ROUTES = ["subscribe(on_change)", "subscribe(debounce(1))", "subscribe(debounce(2))", "subscribe(throttle)", "subscribe(custom)",
+                 "subscribe(on_change(debounce(1)))", "subscribe(debounce(1)(on_change))", "subscribe(throttle(custom))"]
+COPY_ROUTES = ["copy.copy(data[])", "copy.deepcopy(data[])"]
+CAPTURE_ROUTES = (["data[]", "get_nowait", "getattr", "await get", "wait_for then data[]", "subscribe", "subscribe_once"]
+                  + FILTER_ROUTES + COPY_ROUTES)
+
+
+def wrap_filter(route, cb):
+    from pyplumio.filters import custom, debounce, on_change, throttle
+    return {
+        "subscribe(on_change)": lambda: on_change(cb),
+        "subscribe(debounce(1))": lambda: debounce(cb, 1),
+        "subscribe(debounce(2))": lambda: debounce(cb, 2),
+        "subscribe(throttle)": lambda: throttle(cb, 0),
+        "subscribe(custom)": lambda: custom(cb, lambda value: True),
+        "subscribe(on_change(debounce(1)))": lambda: on_change(debounce(cb, 1)),
+        "subscribe(debounce(1)(on_change))": lambda: debounce(on_change(cb), 1),
+        "subscribe(throttle(custom))": lambda: throttle(custom(cb, lambda value: True), 0),
+    }[route]()
 
 KINDS = {"EcomaxNumber": "ecomax", "EcomaxSwitch": "ecomax", "MixerNumber": "mixer", "MixerSwitch": "mixer",
          "ThermostatNumber": "thermostat", "ThermostatSwitch": "thermostat", "ScheduleNumber": "schedule",
@@ -155,11 +174,14 @@ def gen_kept_objects(rng, tier, tables):
     for rep in range(3 if quick else 40):
         for product, pname in ((pd.PRODUCT_P, "P"), (pd.PRODUCT_I, "I")):
             L, LM = len(t["ecomax" + pname]), len(t["mixer" + pname])
-            full = [ev_uid(), ev_ecomax(0, [rand_triple(rng, 1, 0.0) for _ in range(min(L, 200))]),
-                    ev_mixer(0, [[rand_triple(rng, 1, 0.0) for _ in range(LM)] for _ in range(3)]),
-                    ev_avail(2), ev_thermostat(0, 2, N, (2, 0, 5), [[rand_triple(rng, sizes[k], 0.0) for k in range(N)] for _ in range(2)], sizes),
-                    ev_schedules([(i, rng.randrange(2), rand_triple(rng, 1, 0.0), rand_bits(rng)) for i in range(nsched)]),
-                    ev_state(2)]
+            def everything(state):
+                return [ev_ecomax(0, [rand_triple(rng, 1, 0.0) for _ in range(min(L, 200))]),
+                        ev_mixer(0, [[rand_triple(rng, 1, 0.0) for _ in range(LM)] for _ in range(3)]),
+                        ev_avail(2), ev_thermostat(0, 2, N, (2, 0, 5), [[rand_triple(rng, sizes[k], 0.0) for k in range(N)] for _ in range(2)], sizes),
+                        ev_schedules([(i, rng.randrange(2), rand_triple(rng, 1, 0.0), rand_bits(rng)) for i in range(nsched)]),
+                        ev_state(state)]
+
+            full = [ev_uid()] + everything(2)
 
             def other_reports():
                 evs = []
@@ -185,6 +207,10 @@ def gen_kept_objects(rng, tier, tables):
 
             evs = full + [ev_keep(40 if quick else 120)] + other_reports() + [ev_setkept()] + other_reports() + [ev_setkept(), ev_sets(20)]
             yield "kept", product, evs
+            # every subscription is served: the controller reports everything again (other values) after the client subscribed,
+            # the client writes through what it was handed; and once more after a third full report
+            yield "kept-served", product, (full + [ev_keep(70 if quick else 200)] + everything(0) + [ev_setkept()] + everything(3)
+                                           + [ev_setkept()])
 
 
 def gen_arrival_order(rng, tier, tables):
@@ -451,7 +477,8 @@ async def run_history(product, evs, seed):
             words.append(f"W:{dw}:{name}:{v}")
             outs.append(o)
         rec = dict(label=label, name=name, v=v, out=o, triple=list(triple), cls=cls, index=index,
-                   offset=offset, size=size, after=p.values.value, route=route, kept=kept_i is not None, stale=not live)
+                   offset=offset, size=size, after=p.values.value, route=route, kept=kept_i is not None, stale=not live,
+                   capture=None if kept_i is None else kept[kept_i]["route"])
         for suffix in ("_schedule_switch", "_schedule_parameter"):
             if cls.startswith("Schedule") and name.endswith(suffix):
                 prefix = name[: -len(suffix)]
@@ -469,7 +496,7 @@ async def run_history(product, evs, seed):
             if dev is None:
                 kept.append(dict(label=label, name=name, route=route, obj=None))
                 continue
-            if route in ("subscribe", "subscribe(on_change)"):
+            if route in ("subscribe", "subscribe_once") or route in FILTER_ROUTES:
                 holder = {}
 
                 async def cb(value, holder=holder):
@@ -477,10 +504,28 @@ async def run_history(product, evs, seed):
 
                 if route == "subscribe":
                     dev.subscribe(name, cb)
+                elif route == "subscribe_once":
+                    dev.subscribe_once(name, cb)
                 else:
-                    from pyplumio.filters import on_change
-                    dev.subscribe(name, on_change(cb))
+                    dev.subscribe(name, wrap_filter(route, cb))
                 kept.append(dict(label=label, name=name, route=route, holder=holder))
+                continue
+            if route in COPY_ROUTES:
+                import copy
+                obj = dev.data.get(name)
+                try:
+                    obj = None if obj is None else (copy.copy(obj) if route == COPY_ROUTES[0] else copy.deepcopy(obj))
+                except Exception:  # noqa: BLE001  an object that cannot be copied is not a parameter the client holds
+                    obj = None
+                kept.append(dict(label=label, name=name, route=route, obj=obj))
+                continue
+            if route == "wait_for then data[]":
+                try:
+                    await dev.wait_for(name, timeout=1)
+                    obj = dev.data.get(name)
+                except Exception:  # noqa: BLE001
+                    obj = None
+                kept.append(dict(label=label, name=name, route=route, obj=obj))
                 continue
             if route == "data[]":
                 obj = dev.data.get(name)
@@ -678,6 +723,9 @@ def judge(product, evs, snaps, sets, tables):
     for s in sets:
         o = origin.get((s["label"], s["name"]))
         label, name, v = s["label"], s["name"], s["v"]
+        is_copy = s.get("capture") in COPY_ROUTES
+        if is_copy and (s["cls"].startswith("Schedule") or not s["out"].split(":")[0].endswith("Request")):
+            continue    # a copy that cannot transmit (or whose request is collected from the device: schedules) says nothing about slots
         if name == "ecomax_control":
             want = f"EcomaxControlRequest:{v}"
             finding = None
@@ -709,7 +757,8 @@ def judge(product, evs, snaps, sets, tables):
             continue
         if s["out"] != want:
             bad.append(("S3 the set request does not address the position the value was decoded from",
-                        dict(device=label, name=name, value=v, expected=want, observed=s["out"], origin=o), finding))
+                        dict(device=label, name=name, value=v, expected=want, observed=s["out"], origin=o,
+                             obtained_by=s.get("capture") or "device.data at the time of the call", write_route=s.get("route")), finding))
     return bad, True
 
 
@@ -734,6 +783,7 @@ def run_cases(cases, res, tables, seed):
             res.count("write route:" + s.get("route", "parameter.set"))
             if s.get("kept"):
                 res.count("write through a kept object" + (" (stale: no longer the object in device.data)" if s.get("stale") else ""))
+                res.count("write through an object obtained by:" + str(s.get("capture")))
         for ev in concrete:
             if ev["kind"] == "KEEPX":
                 for _, _, cr in ev["items"]:
@@ -806,6 +856,13 @@ def replay(ctx):
     res.rule = "replay of one recorded history"
     inp = f["input"]
     evs = [dict(ev, desc=ev.get("desc", ev["kind"])) for ev in inp["events"]]
+    for ev in evs:      # JSON turned the integer keys (mixer / thermostat numbers) of the reference decodings into strings
+        ref = ev.get("ref")
+        if ev["kind"] == "M" and isinstance(ref, dict):
+            ev["ref"] = {int(m): [(p, tuple(tr)) for p, tr in its] for m, its in ref.items()}
+        elif ev["kind"] == "T" and isinstance(ref, dict):
+            ev["ref"] = dict(ref, blocks={int(t): [(p, tuple(tr)) for p, tr in its] for t, its in ref["blocks"].items()},
+                             holes={int(t): h for t, h in ref["holes"].items()})
     run_cases([(inp.get("label", "replay"), pd.PRODUCT_P if inp["product"] == "P" else pd.PRODUCT_I, evs)], res,
               pd.load_tables(), ctx["seed"])
     return res
